@@ -33,7 +33,7 @@ HAZARDS = [
     "cycle2", "cycle3", "deep_chain", "long_name_include", "bad_encoding", "nested_in_directive", "include_twice",
     "long_link", "dir_link", "odd_links", "literal_include_binary", "include_md_doc", "discarded_body",
     "discarded_body", "discarded_body", "long_line", "outside_srcdir_include", "relative_docs_include", "relative_docs_include",
-    "bad_urls",
+    "bad_urls", "comment_transition",
 ]
 INV_HAZARDS = ["inv_missing", "inv_dir", "inv_bad_header", "inv_not_compressed", "inv_corrupt_zlib", "inv_bad_utf8",
                "inv_garbage_body", "inv_garbage_body",
@@ -167,6 +167,13 @@ def apply(r, proj: dict, front_end: str, n: int) -> list[str]:
             _append(files, doc, r.choice(["[a](inv://[abc#x)", "[a](http://[abc)", "<http://[abc>", "[a](https://[::1)",
                                           "[a](wiki://[x)", "[a](inv:key:std:label#[)", "<inv:[#x>", "[a](http://a b/)",
                                           "[a](http://\x7f/)", "[a](http://%zz/)", "<mailto:[x>", "[a](http://[abc]:x/)"]))
+        elif h == "comment_transition":
+            # a thematic break preceded, inside a container, only by nodes that a transform removes before docutils
+            # checks transitions (comments under strip_comments, footnotes under footnote_sort)
+            _append(files, doc, r.choice(["> % a comment\n> ---\n>\n> text", "- % c\n\n  ***\n\n  after",
+                                          "```{note}\n% only a comment\n\n---\n\ntext\n```",
+                                          "> [^ctf]: footnote first\n>\n> ---\n>\n> text[^ctf]",
+                                          "1. % c\n   % d\n\n   ___"]))
         elif h == "include_md_doc":
             other = r.choice([d for d in docs if d != doc] or docs)
             _append(files, doc, _inc(rel(other), r.choice([None, {"relative-docs": "."}, {"relative-images": ""}])))
